@@ -1,6 +1,7 @@
 package drive
 
 import (
+	"encoding/hex"
 	"encoding/json"
 	"fmt"
 	"math"
@@ -176,7 +177,7 @@ type votedMsg struct {
 	Extra   Ev
 }
 
-func (s *Session) newVotedMsg(vc *voteCtx, kind string, proposerBech string) (*votedMsg, error) {
+func (s *Session) newVotedMsg0(vc *voteCtx, kind string, proposerBech string) (*votedMsg, error) {
 	n := s.NewVid()
 	payload := fmt.Sprintf("p%d", n)
 	switch kind {
@@ -211,6 +212,17 @@ func (s *Session) newVotedMsg(vc *voteCtx, kind string, proposerBech string) (*v
 			Extra: Ev{"pre": single, "post": true, "payTo": fmt.Sprintf("%x", relayertypes.EncodePublicKey(vc.CurKey)[:5])}}, nil
 	}
 	return nil, fmt.Errorf("unknown kind %s", kind)
+}
+
+// newVotedMsg builds a voted message of the given kind; its payload id is derived from the signed content, so that two
+// messages with byte-identical content (e.g. two empty hash batches starting at the same height) are the SAME payload.
+func (s *Session) newVotedMsg(vc *voteCtx, kind string, proposerBech string) (*votedMsg, error) {
+	vm, err := s.newVotedMsg0(vc, kind, proposerBech)
+	if err != nil {
+		return nil, err
+	}
+	vm.Payload = "p" + hex.EncodeToString(hash32(vm.Data)[:5])
+	return vm, nil
 }
 
 // VotedTx assembles a complete signed transaction carrying a voted message.
